@@ -145,6 +145,30 @@ MISSED = {
     "C18-12": "Lua input that sets globals and returns nothing",
     "C19-11": "B-inject: in-expression decoders (`from_json`, `from_yaml`) on an empty text in document k",
     "C19-12": "B-inject: the failing run repeated with `-i` in eval and eval-all mode",
+    "C02-13": "`overwrite` law: several keys in one bracket (`.m[\"ka\", \"zz_b\"] = v`), some there and some not",
+    "C03-13": "deletes from the list of entries of a map (`to_entries | del(.[i]) | from_entries`)",
+    "C04-13": "family `deep`: documents nested 98-110 levels",
+    "C04-14": "family `aliases`: operands that reach anchored nodes through aliases (map values and sequence elements), every flag but n",
+    "C05-13": "byte-level variant: the stream without its final line feed (meaning taken from the independent reader)",
+    "C05-14": "byte-level variant: CR as line break throughout",
+    "C06-14": "byte strings (`@urid`, `@base64d` results that are not UTF-8) through the JSON encoder: output is UTF-8 and JSON",
+    "C07-13": "line family: the entry whose key is the empty string, addressed by `[\"\"]`",
+    "C07-14": "line family: a copy of a sequence stored, an element of the original deleted, the copy dropped (== the plain delete)",
+    "C09-13": "family union-chain: `(., .a), .` == `., (.a, .)` == `., .a, .` with the context / a variable mentioned more than once",
+    "C10-13": "family O8: the decoder-state family of C14 (several input files per input format) also run under C10",
+    "C10-14": "`pick` / `omit` at the document root: not excused by the derived-root deviation (they keep the result's document)",
+    "C11-13": "corpus: property keys with brackets (`a.5] = 1`, `pets[0]`), also through from_props",
+    "C12-13": "a fault-free run with stdout on a character device and colours not switched off",
+    "C13-13": "route 2e: `.zz = .K | .zz` for alias-valued K reads what `.K` reads",
+    "C13-14": "anchored maps that carry a local tag (`&a1 !settings`)",
+    "C14-14": "Lua maps whose keys are the strings \"1\", \"2\", ...",
+    "C15-14": "answers for number-vs-string pairs (and min / max over mixed pools) must be the order's answers where yq gives any",
+    "C16-13": "form merge-into-nothing: `.zz_m * .y`, `null * .y` queried without being assigned",
+    "C16-14": "form slice-on-the-way: a slice of the sequence bound / stored / measured before the sequence itself is queried",
+    "C17-13": "every @sh word also evaluated as the value of an assignment (`v=WORD`); strings with `:~`, `=~`",
+    "C18-13": "family nul-printer: one NUL-separating printer serves a sequence that contains refused results",
+    "C19-13": "family F-inplace: -i with and without --front-matter, eval and eval-all: the file holds what the command prints",
+    "C19-14": "family E: beginnings of format names (`js`, `ts`, `pro`, `to` ...) as unknown extensions",
 }
 REGRESSED = {
     "C11-1": "caught when delivered (4 violation lines), lost when the generator grew (0 of 40 k cases), caught again after reversed slices were made denser and the quick tier raised to 100 k cases",
@@ -183,7 +207,7 @@ for name in sorted(os.listdir(src)):
     for f in os.listdir(d):
         if f in ("patch.diff", "demo.sh") or f.endswith("_test.go"):
             shutil.copy(os.path.join(d, f), os.path.join(out, f))
-    rnd = {"1": 1, "2": 1, "3": 2, "4": 2, "5": 3, "6": 3, "7": 4, "8": 4, "9": 5, "10": 5, "11": 6, "12": 6}[name.split("-")[1]]
+    rnd = {"1": 1, "2": 1, "3": 2, "4": 2, "5": 3, "6": 3, "7": 4, "8": 4, "9": 5, "10": 5, "11": 6, "12": 6, "13": 7, "14": 7}[name.split("-")[1]]
     new = {
         "id": name,
         "property": meta.get("property", name[:3]),
